@@ -49,7 +49,8 @@ def mutants(args):
     missed = 0
     for pid, patch in todo:
         if pid not in PROPS: print("SKIP %s (property %s not claimed)" % (patch, pid)); continue
-        d = scratch_repo(patch)
+        try: d = scratch_repo(patch)
+        except RuntimeError as e: missed += 1; print("NOAPPLY   %s %s" % (pid, os.path.relpath(patch, V))); continue
         try:
             rc, so, se, dt = run_check(pid, tier, d)
             sigs = sorted(set(l.split("sig=", 1)[1].split()[0] for l in so.splitlines() if "sig=" in l))
